@@ -14,6 +14,7 @@ use std::panic::{catch_unwind, AssertUnwindSafe};
 use std::sync::Mutex;
 
 static LAST_PANIC: Mutex<Option<String>> = Mutex::new(None);
+static PANIC_FILE: std::sync::OnceLock<String> = std::sync::OnceLock::new();
 
 pub fn install_panic_hook() {
     std::panic::set_hook(Box::new(|info| {
@@ -28,6 +29,11 @@ pub fn install_panic_hook() {
         } else {
             "<non-string panic>".into()
         };
+        // a panic that cannot unwind aborts the process: keep the text of the last panic in a
+        // side file, which the driver reads when a worker dies
+        if let Some(p) = PANIC_FILE.get() {
+            let _ = std::fs::write(p, format!("{} @ {}\n", msg, loc));
+        }
         if let Ok(mut g) = LAST_PANIC.lock() {
             *g = Some(format!("{} @ {}", msg, loc));
         }
@@ -108,6 +114,9 @@ const MAX_SAMPLES: u64 = 12;
 
 impl Log {
     pub fn new(path: Option<&str>) -> Log {
+        if let Some(p) = path {
+            let _ = PANIC_FILE.set(format!("{}.panic", p));
+        }
         let (out, cur, hpath) = match path {
             Some(p) => (
                 // append: under `-Zmiri-many-seeds` the same worker command runs once per seed
